@@ -363,8 +363,8 @@ class CFG:
         if not (isinstance(val, ast.Call) and isinstance(val.func, ast.Name) and val.func.id == "next" and len(val.args) == 2 and not val.keywords and isinstance(val.args[0], ast.GeneratorExp)):
             return None
         g = val.args[0]
-        if len(g.generators) != 1 or g.generators[0].is_async or not isinstance(g.generators[0].iter, ast.Name) or has_events(val.args[1]):
-            return None
+        if len(g.generators) != 1 or g.generators[0].is_async or has_events(val.args[1]) or any(isinstance(n, (ast.Await, ast.NamedExpr, ast.Yield, ast.YieldFrom, ast.Lambda, ast.GeneratorExp, ast.ListComp, ast.SetComp, ast.DictComp)) for n in ast.walk(g.generators[0].iter)):
+            return None  # (the iterable may be any plain expression: a `for` evaluates it once, like the generator does)
         gen = g.generators[0]
 
         def effect_free(e: ast.AST) -> bool:
